@@ -20,6 +20,8 @@ RULES = {
     "C15.R8": "AWQPackedTensor.pack/unpack delegate to the module packer/unpacker selected by the recorded packing with the recorded reorder flag, nothing re-positions the unpacked codes, and every reconstruction inside the class carries (packing, reorder) over unchanged",
     "C15.R9": "re-wrapping handlers: a QBitsTensor handler that rebuilds `t.__class__(...)` from `op(t._data)` is only registered for ops under which AWQPackedTensor stays packed (its __torch_dispatch__ keeps detach / _to_copy / to); otherwise the optimised constructor formats scale and zero-point a second time",
     "C15.R10": "the grouping helpers the optimised constructor and dequantizer rely on (ungroup before packing, group after unpacking) are inverse layouts (the rule of C02.R4)",
+    "C15.R11": "the packers widen before they shift: every `<<` in pack / pack_v2 applies to a value already cast to a 16/32/64-bit integer (a 4-bit code shifted by 4 in an int8 tensor - what v1 unpack returns - turns negative and sign-extends over the neighbouring lanes)",
+    "C15.R12": "the packing functions are pure: no module-level state is written or consulted by pack / unpack / pack_v2 / unpack_v2 / reverse_awq_order (a cached index makes the result depend on the widths seen before)",
     "C15.R7": "create() selects the optimised class exactly under the kernel's preconditions; moves across device types and serialization convert back; every subclass overrides qbits_tensor",
 }
 
@@ -84,6 +86,8 @@ def run(chk):
     selection(chk)
     wrapper(chk, awq_mi)
     rewrap_ops(chk, awq_mi)
+    widen_before_shift(chk, awq_mi)
+    pure_layout(chk, awq_mi)
     from .c04_layout import group_ungroup
     group_ungroup(chk, "C15.R10")
     chk.assume("row-major reshape, permute, bit operators on int32/int16 values that fit (codes < 16)", "the CUDA kernels themselves are not analysed")
@@ -496,3 +500,88 @@ def rewrap_ops(chk, awq_mi):
             chk.require("C15.R9", f"{h.mi.rel}:{p.end[2]}", not (raw_payload and bad_ops), f"{h.name} rebuilds {U(e.func)}(...) from op({t}._data) for {h.ops}; ops under which the AWQ payload is not kept packed: {bad_ops}", h.name, f"rewrap under {bad_ops}",
                         f"{bad_ops[0].split('.')[-1] if bad_ops else 'op'}() of an optimised (AWQ) weight: the inner payload comes back unpacked, so AWQBitsTensor.__init__ transposes the scales and negates/scales the zero-points a second time")
     chk.floor("C15.R9", n, 1, "re-wrapping QBits handlers")
+
+
+WIDE = ("torch.int16", "torch.int32", "torch.int64", "torch.short", "torch.int", "torch.long")
+
+
+def widen_before_shift(chk, awq_mi):
+    from ..core import canon_function
+    n = 0
+    for name in ("pack", "pack_v2"):
+        fn0 = awq_mi.defs.get(name)
+        if not isinstance(fn0, ast.FunctionDef):
+            continue
+        fn = canon_function(fn0)
+        wide = set()
+
+        def is_wide(e):
+            if isinstance(e, ast.Name):
+                return e.id in wide
+            if isinstance(e, ast.Subscript):
+                return is_wide(e.value)
+            if isinstance(e, ast.Call) and isinstance(e.func, ast.Attribute):
+                if e.func.attr in ("to", "type") and any(U(a) in WIDE for a in e.args) or any(k.arg == "dtype" and U(k.value) in WIDE for k in e.keywords):
+                    return True
+                if e.func.attr in ("int", "long", "short"):
+                    return True
+                if e.func.attr in ("contiguous", "reshape", "view", "permute", "t", "clone") :
+                    return is_wide(e.func.value)
+                if U(e.func) in ("torch.zeros", "torch.empty", "torch.ones", "torch.full"):
+                    return any(k.arg == "dtype" and U(k.value) in WIDE for k in e.keywords)
+            if isinstance(e, ast.BinOp) and isinstance(e.op, (ast.LShift, ast.RShift)):
+                return is_wide(e.left)  # the shift amount is a python int
+            if isinstance(e, ast.BinOp) and isinstance(e.op, (ast.BitOr, ast.BitAnd, ast.Add)):
+                return is_wide(e.left) and (is_wide(e.right) or isinstance(e.right, ast.Constant))
+            return False
+
+        narrow = []
+
+        def scan(stmts):
+            for st in stmts:
+                for nd in ast.walk(st) if not isinstance(st, (ast.For, ast.If, ast.While)) else []:
+                    if isinstance(nd, ast.BinOp) and isinstance(nd.op, ast.LShift) and not isinstance(nd.left, ast.Constant):
+                        nonlocal_n[0] += 1
+                        if not is_wide(nd.left):
+                            narrow.append(nd)
+                if isinstance(st, ast.Assign) and len(st.targets) == 1 and isinstance(st.targets[0], ast.Name):
+                    if is_wide(st.value):
+                        wide.add(st.targets[0].id)
+                    else:
+                        wide.discard(st.targets[0].id)
+                if isinstance(st, (ast.For, ast.While)):
+                    scan(st.body)
+                elif isinstance(st, ast.If):
+                    scan(st.body)
+                    scan(st.orelse)
+
+        nonlocal_n = [0]
+        scan(fn.body)
+        n += nonlocal_n[0]
+        chk.require("C15.R11", f"{awq_mi.rel}:{fn0.lineno}", not narrow, f"{name}: {nonlocal_n[0]} left shift(s), all on values widened to 16 bits or more ({[U(x)[:40] for x in narrow]})", name, "shift in the input dtype",
+                    "4-bit codes held in an int8 tensor (what the library's own v1 unpack returns) with a code >= 8 in a shifted lane: the lane turns negative, sign-extends when widened and overwrites the neighbouring lanes")
+    chk.floor("C15.R11", n, 2, "left shifts in the AWQ packers")
+
+
+def pure_layout(chk, awq_mi):
+    from ..effects import EffectGraph
+    g = EffectGraph(chk.repo)
+    n = 0
+    for name in ("pack", "unpack", "pack_v2", "unpack_v2", "reverse_awq_order"):
+        fn = awq_mi.defs.get(name)
+        if not isinstance(fn, ast.FunctionDef) or id(fn) not in g.fns:
+            continue
+        n += 1
+        root = g.info(fn)
+        writes = [(e, f) for e, f, chain in g.external_effects(root, set()) if any(r.startswith("global:") for r in e.roots)]
+        reads_state = []
+        for f in g.reachable(root):
+            for nd in ast.walk(f.fn):
+                if isinstance(nd, ast.Name) and isinstance(nd.ctx, ast.Load):
+                    v = f.mi.defs.get(nd.id)
+                    if isinstance(v, (ast.Dict,)) or (isinstance(v, ast.Call) and U(v.func) in ("dict", "list", "set", "defaultdict", "OrderedDict")) or (isinstance(v, ast.List) and not v.elts):
+                        reads_state.append(nd.id)
+        bad = sorted({e.text for e, _ in writes} | set(reads_state))
+        chk.require("C15.R12", f"{awq_mi.rel}:{fn.lineno}", not bad, f"{name}: no module-level mutable state involved ({bad})", name, "layout function uses module-level state",
+                    "a sequence of calls: unpacking a matrix after a narrower one was unpacked on the same device returns the narrower index (a (8,128) matrix comes back as (8,64))")
+    chk.floor("C15.R12", n, 4, "AWQ layout functions checked for purity")
